@@ -140,7 +140,8 @@ func (w *World) portfolio(ex *Exec, extra *Term) Verdict {
 	if extra == nil {
 		extra = trueT
 	}
-	script := ex.solver.Dump(extra)
+	conj, _ := ex.slice(extra)
+	script := bvScriptOf(conj, nil)
 	for _, alt := range []string{"z3-new", "cvc5", "cvc5-int"} {
 		v := RunScript(alt, script, w.timeoutMs*3)
 		if v != Unknown {
@@ -158,7 +159,8 @@ func (w *World) cross(ex *Exec, negated *Term, id string) {
 	}
 	w.crossDone++
 	w.mu.Unlock()
-	script := ex.solver.Dump(negated)
+	conj, _ := ex.slice(negated)
+	script := bvScriptOf(conj, nil)
 	alt := "cvc5"
 	if strings.Contains(script, "FloatingPoint") || strings.Contains(script, "fp.") {
 		alt = "z3-new"
@@ -337,6 +339,10 @@ func (e *explorer) worker() {
 		}
 		ex.trail = t.prefix
 		frozen := len(t.prefix)
+		ex.startModel = nil
+		if frozen > 0 {
+			ex.startModel = t.prefix[frozen-1].M
+		}
 		for {
 			ps := ex.runPath(e.fn)
 			e.record(ex, ps)
@@ -362,6 +368,7 @@ func (e *explorer) worker() {
 				d.AltOpen = d.Choice < d.N-1
 			}
 			ex.trail = ex.trail[:i+1]
+			ex.startModel = d.M
 			e.donate(ex.trail, frozen)
 		}
 		if e.shouldStop() {
@@ -446,7 +453,7 @@ func (e *explorer) record(ex *Exec, ps PathStat) {
 	case "done":
 		if ps.Asserts > 0 && ps.Sym && r.Witness < 3 {
 			// reachability witness: the path condition of a path that reached its assertions is satisfiable
-			if v, _ := ex.solver.Solve(nil, nil); v == Sat {
+			if v, _ := ex.solve(nil, nil); v == Sat {
 				r.Witness++
 			}
 		} else if ps.Asserts > 0 && !ps.Sym {
@@ -475,8 +482,6 @@ func (e *explorer) record(ex *Exec, ps PathStat) {
 // runPath executes the harness once along the current trail.
 func (ex *Exec) runPath(fn *ssa.Function) (ps PathStat) {
 	ex.resetPath()
-	ex.solver.PopTo(0)
-	ex.solver.Push()
 	defer func() {
 		ps.Steps = ex.steps
 		ps.Asserts = ex.asserts
